@@ -64,6 +64,15 @@ def _run(V, work, tier):
         recs.append(rec)
         drv.append({"id": i, "seq": srcs, "cfg": {}})
         poss.append(pos)
+    # the MIX family: failures inside callbacks, later calls and operator bodies AFTER a tail loop was collapsed in the same
+    # builtin call / operator / function, through cross-package calls, macros, threading forms and handlers that rethrow
+    import mix
+    for _ in range(2500 if thorough else 350):
+        i = len(recs)
+        rec, srcs, pos = mach.prog_with_layout(i, [mix.mix_fail_program(rnd)], {}, None, rnd)
+        recs.append(rec)
+        drv.append({"id": i, "seq": srcs, "cfg": {}})
+        poss.append(pos)
     n = len(recs)
     model, res = mach.run_machine(work, recs, timeout=3300)
     V.tlc(res, "Machine: %d failing-program candidates with random layout" % n)
